@@ -15,11 +15,11 @@ CONSTANTS
  Tries = 2
  NextHop = 4 Unstable = 24 CacheTO = 4 Inactive = 8 RemoveDelay = 2 SweepEvery = 2 PingEvery = 3 MaxTime = 1000
  CreateGuard = TRUE
- MaxCircuits = 2 MaxData = 2 MaxLoss = 0 MaxDup = 0 MaxAdv = 2 MaxNow = 0
- Goals = {1, 2}
+ MaxCircuits = 1 MaxData = 1 MaxLoss = 0 MaxDup = 0 MaxAdv = 1 MaxNow = 0
+ Goals = {2}
  Origins = {o}
- AdvKinds = {"tamper", "splice", "inject", "header", "plain"}
- TrackWire = TRUE
+ AdvKinds = {"create", "destroy", "inject", "splice", "plain"}
+ TrackWire = FALSE
  UseIds = FALSE
  NodeTeardown = FALSE
  MayVanish = FALSE
@@ -28,7 +28,10 @@ CONSTANTS
  CheckIdent = TRUE
  AutoTimers = TRUE
 INVARIANT TypeOK
-INVARIANT ExitIntegrity
+INVARIANT NoShadow
+INVARIANT ExitOnlyOwn
 INVARIANT ReturnIntegrity
-INVARIANT LayerDepth
-INVARIANT NoRepeatOnLinks
+INVARIANT ExitIntegrity
+PROPERTY EntriesStable
+PROPERTY DestroyOnlyFromNeighbour
+PROPERTY UnknownCellsInert
